@@ -171,7 +171,7 @@ func (m *model) Init(dir string) error {
 }
 
 func (m *model) Actions() []string {
-	a := []string{"user-new", "bug-new", "comment", "title", "status", "label", "select", "deselect", "push", "pull", "rm", "attach", "peer-edit", "bridge", "gql", "ls", "wipe"}
+	a := []string{"user-new", "bug-new", "comment", "title", "status", "label", "select", "deselect", "push", "pull", "rm", "attach", "peer-edit", "bridge", "gql", "ls", "wipe", "ls-linked"}
 	if m.p.Alphabet == "thorough" {
 		a = append(a, "comment-edit", "show", "user-ls", "label-ls")
 	}
